@@ -122,7 +122,110 @@ theorem stepAt_str (body rest : List Char) (h : ∀ c ∈ body, strPlain c = tru
         else Step.skip ((strScan ((body ++ '"' :: rest).length + 1) (body ++ '"' :: rest)).2 + 1)) = _
   rw [this]; simp
 
+/-! ### escapes in strings, character literals, template literals -/
+
+/-- one element of a string body: a plain character or a two-character escape `\x` -/
+inductive SItem where
+  | plain (c : Char)
+  | esc (c : Char)
+  deriving Repr
+
+/-- the one-character escapes of the grammar's EscapeSequence -/
+def simpleEsc (c : Char) : Bool := "btnfr\"'\\".toList.contains c
+
+def SItem.text : SItem → List Char
+  | .plain c => [c]
+  | .esc c => ['\\', c]
+
+def SItem.ok : SItem → Bool
+  | .plain c => strPlain c
+  | .esc c => simpleEsc c
+
+def itemsText : List SItem → List Char
+  | [] => []
+  | i :: r => i.text ++ itemsText r
+
+theorem escapeScan_simple (c : Char) (rest : List Char) (h : simpleEsc c = true) :
+    escapeScan ('\\' :: c :: rest) = .inl 2 := by
+  unfold simpleEsc at h
+  simp only [escapeScan, h, ↓reduceIte]
+
+/-- a string body of plain characters and escapes (`\"` and `\\` among them) followed by the closing quote -/
+theorem strScan_items (rest : List Char) : ∀ (items : List SItem) (fuel : Nat), (∀ i ∈ items, i.ok = true) →
+    fuel > (itemsText items).length → strScan fuel (itemsText items ++ '"' :: rest) = (true, (itemsText items).length + 1) := by
+  intro items
+  induction items with
+  | nil => intro fuel _ hf; cases fuel with | zero => simp at hf | succ f => simp [strScan, itemsText]
+  | cons i is ih =>
+    intro fuel h hf
+    cases fuel with
+    | zero => simp at hf
+    | succ f =>
+      have hi := h i (by simp)
+      cases i with
+      | plain c =>
+        simp only [SItem.ok, strPlain, Bool.and_eq_true, bne_iff_ne, ne_eq] at hi
+        obtain ⟨⟨⟨h1, h2⟩, h3⟩, h4⟩ := hi
+        have hq : (c == '"') = false := by simpa using h1
+        have hb : (c == '\\') = false := by simpa using h2
+        have hcr : (c == '\r' || c == '\n') = false := by simp [h3, h4]
+        simp only [itemsText, SItem.text, List.cons_append, List.nil_append, strScan, hq, hb, hcr, Bool.false_eq_true, ↓reduceIte]
+        rw [ih f (fun x hx => h x (by simp [hx])) (by simp [itemsText, SItem.text] at hf; omega)]
+        simp
+      | esc c =>
+        simp only [SItem.ok] at hi
+        have hq : ('\\' == '"') = false := by decide
+        simp only [itemsText, SItem.text, List.cons_append, List.nil_append, strScan, hq, Bool.false_eq_true, ↓reduceIte,
+          beq_self_eq_true, escapeScan_simple c _ hi, List.drop_succ_cons, List.drop_zero]
+        rw [ih f (fun x hx => h x (by simp [hx])) (by simp [itemsText, SItem.text] at hf; omega)]
+        simp
+
+theorem stepAt_estr (items : List SItem) (rest : List Char) (h : ∀ i ∈ items, i.ok = true) :
+    stepAt ('"' :: (itemsText items ++ '"' :: rest)) = .tok .str ((itemsText items).length + 2) := by
+  have := strScan_items rest items ((itemsText items ++ '"' :: rest).length + 1) h (by simp; omega)
+  show (if (strScan ((itemsText items ++ '"' :: rest).length + 1) (itemsText items ++ '"' :: rest)).1 = true
+        then Step.tok Kind.str ((strScan ((itemsText items ++ '"' :: rest).length + 1) (itemsText items ++ '"' :: rest)).2 + 1)
+        else Step.skip ((strScan ((itemsText items ++ '"' :: rest).length + 1) (itemsText items ++ '"' :: rest)).2 + 1)) = _
+  rw [this]; simp
+
+/-- a plain character of a character literal -/
+def chrPlain (c : Char) : Bool := c != '\\' && c != '\'' && c != '\r' && c != '\n'
+
+theorem stepAt_chr (c : Char) (rest : List Char) (h : chrPlain c = true) :
+    stepAt ('\'' :: c :: '\'' :: rest) = .tok .chr 3 := by
+  simp only [chrPlain, Bool.and_eq_true, bne_iff_ne, ne_eq] at h
+  obtain ⟨⟨⟨h1, h2⟩, h3⟩, h4⟩ := h
+  simp [stepAt, chrScan, h1, h2, h3, h4]
+
+theorem stepAt_echr (c : Char) (rest : List Char) (h : simpleEsc c = true) :
+    stepAt ('\'' :: '\\' :: c :: '\'' :: rest) = .tok .chr 4 := by
+  simp [stepAt, chrScan, escapeScan_simple c _ h]
+
+/-- a plain character of a template literal -/
+def tmplPlain (c : Char) : Bool := c != '`' && c != '\\'
+
+theorem tmplScan_plain (rest : List Char) : ∀ (body : List Char) (pos : Nat) (cand : Option Nat),
+    (∀ c ∈ body, tmplPlain c = true) → tmplScan false pos cand (body ++ '`' :: rest) = some (pos + body.length + 1) := by
+  intro body
+  induction body with
+  | nil => intro pos cand _; simp [tmplScan]
+  | cons c cs ih =>
+    intro pos cand h
+    have hc := h c (by simp)
+    simp only [tmplPlain, Bool.and_eq_true, bne_iff_ne, ne_eq] at hc
+    have h1 : (c == '`') = false := by simpa using hc.1
+    have h2 : (c == '\\') = false := by simpa using hc.2
+    simp only [List.cons_append, tmplScan, h1, h2, Bool.false_eq_true, ↓reduceIte]
+    rw [ih (pos + 1) cand (fun x hx => h x (by simp [hx]))]
+    simp; omega
+
+theorem stepAt_tmpl (body rest : List Char) (h : ∀ c ∈ body, tmplPlain c = true) :
+    stepAt ('`' :: (body ++ '`' :: rest)) = .tok .tmpl (body.length + 2) := by
+  have := tmplScan_plain rest body 0 none h
+  simp [stepAt, tmplBody, this]
+
 end CocaVerif.Todo
+
 
 namespace CocaVerif.Todo
 
@@ -134,6 +237,10 @@ inductive Seg where
   | block (body : List Char)   -- /*body*/
   | line (txt : List Char)     -- //txt
   | hash (txt : List Char)     -- #txt
+  | estr (items : List SItem)  -- "…" with escapes (\" \\ \n …)
+  | chr (c : Char)             -- 'c'
+  | echr (c : Char)            -- '\c'
+  | tmpl (body : List Char)    -- `body`
   deriving Repr
 
 def Seg.text : Seg → List Char
@@ -142,6 +249,10 @@ def Seg.text : Seg → List Char
   | .block b => '/' :: '*' :: (b ++ ['*', '/'])
   | .line t => '/' :: '/' :: t
   | .hash t => '#' :: t
+  | .estr items => '"' :: (itemsText items ++ ['"'])
+  | .chr c => ['\'', c, '\'']
+  | .echr c => ['\'', '\\', c, '\'']
+  | .tmpl b => '`' :: (b ++ ['`'])
 
 def render : List Seg → List Char
   | [] => []
@@ -153,6 +264,10 @@ def segOK : Seg → Bool
   | .block b => (findClose b).isNone
   | .line t => t.all fun c => !lineEnd c
   | .hash t => t.all fun c => !hashEnd c
+  | .estr items => items.all SItem.ok
+  | .chr c => chrPlain c
+  | .echr c => simpleEsc c
+  | .tmpl b => b.all tmplPlain
 
 /-- a line/hash comment runs to the end of its line: what follows is a line end or nothing -/
 def followOK : Seg → List Char → Bool
@@ -170,6 +285,10 @@ def Seg.kind? : Seg → Option Kind
   | .block _ => some .block
   | .line _ => some .line
   | .hash _ => some .hash
+  | .estr _ => some .str
+  | .chr _ => some .chr
+  | .echr _ => some .chr
+  | .tmpl _ => some .tmpl
 
 /-- the tokens a correct lexer must produce: one per literal/comment segment, with its text and the
     line it starts on; code produces none -/
@@ -263,5 +382,52 @@ theorem lexFrom_render : ∀ (segs : List Seg) (fuel line : Nat), WF segs = true
             | cons c cs => simpa [followOK, hrr] using hfo)
           simp only [Seg.text, List.cons_append, List.length_cons] at this ⊢
           rw [this]; congr 1; omega
+
+    | estr items =>
+      simp only [segOK, List.all_eq_true] at hs
+      simp only [render, toks, Seg.kind?] at hf ⊢
+      cases fuel with
+      | zero => simp at hf
+      | succ f =>
+        rw [lexFrom_tok .str _ _ f line (by simp [Seg.text])]
+        · rw [ih _ _ hr (by simp [Seg.text] at hf; omega)]
+        · have := stepAt_estr items (render r) hs
+          simp only [Seg.text, List.cons_append, List.append_assoc, List.nil_append, List.length_cons,
+            List.length_append, List.length_nil] at this ⊢
+          rw [this]
+    | chr c =>
+      simp only [segOK] at hs
+      simp only [render, toks, Seg.kind?] at hf ⊢
+      cases fuel with
+      | zero => simp at hf
+      | succ f =>
+        rw [lexFrom_tok .chr _ _ f line (by simp [Seg.text])]
+        · rw [ih _ _ hr (by simp [Seg.text] at hf; omega)]
+        · have := stepAt_chr c (render r) hs
+          simp only [Seg.text, List.cons_append, List.nil_append, List.length_cons, List.length_nil] at this ⊢
+          rw [this]
+    | echr c =>
+      simp only [segOK] at hs
+      simp only [render, toks, Seg.kind?] at hf ⊢
+      cases fuel with
+      | zero => simp at hf
+      | succ f =>
+        rw [lexFrom_tok .chr _ _ f line (by simp [Seg.text])]
+        · rw [ih _ _ hr (by simp [Seg.text] at hf; omega)]
+        · have := stepAt_echr c (render r) hs
+          simp only [Seg.text, List.cons_append, List.nil_append, List.length_cons, List.length_nil] at this ⊢
+          rw [this]
+    | tmpl b =>
+      simp only [segOK, List.all_eq_true] at hs
+      simp only [render, toks, Seg.kind?] at hf ⊢
+      cases fuel with
+      | zero => simp at hf
+      | succ f =>
+        rw [lexFrom_tok .tmpl _ _ f line (by simp [Seg.text])]
+        · rw [ih _ _ hr (by simp [Seg.text] at hf; omega)]
+        · have := stepAt_tmpl b (render r) hs
+          simp only [Seg.text, List.cons_append, List.append_assoc, List.nil_append, List.length_cons,
+            List.length_append, List.length_nil] at this ⊢
+          rw [this]
 
 end CocaVerif.Todo
